@@ -528,6 +528,22 @@ func (s *Stage) Recover() {
 				}
 			} else if _, err = os.Stat(base); os.IsNotExist(err) {
 				// Not found
+				// A crash between the two steps of the move into the target
+				// directory leaves the (validated and logged) file under its
+				// temporary name.  Finish the move before dropping the companion.
+				targetName := cmp.Name
+				if cmp.Renamed != "" {
+					targetName = cmp.Renamed
+				}
+				targetPath := filepath.Join(s.targetDir, targetName)
+				if _, err = os.Stat(targetPath + fileutil.LockExt); err == nil {
+					if err = os.Rename(targetPath+fileutil.LockExt, targetPath); err != nil {
+						s.logError("Failed to finish interrupted move:",
+							targetPath, err.Error())
+						return nil
+					}
+					s.logInfo("Finished interrupted move:", targetPath)
+				}
 				if err = os.Remove(path); err != nil {
 					s.logError("Failed to remove orphaned companion:",
 						path, err.Error())
